@@ -462,7 +462,7 @@ PROPS = {
         "n_quick": 12000, "n_thorough": 800000,
         "nontrivial": lambda toks, impl: impl not in ("panic", "-"), "tags": _c13_tags,
         "rule": "requests `<ktype> getkmer|iter|iterexts|term <container> <seq> [arg]` over 12 k-mer types (K = 2..64, all five storage widths) and "
-                "containers DnaString, forward and reverse-complemented DnaStringSlice at random offsets inside a longer string, Lmer of "
+                "containers DnaString, forward and reverse-complemented DnaStringSlice at random offsets inside a longer string (a third of them a window `[x,y)` of such a view: `slice.a.b.r.x.y`), Lmer of "
                 "1,2,3,4,6 words (25% at max_len), DnaBytes, DnaSlice; sequence lengths: < K and = K (1/6), block boundaries 31..300 (1/6), "
                 "K..K+80; the plain `iter` request is drawn on sequences of every length (until round 8 of the seeded changes it was only the fall-back for sequences shorter than K; the evidence now counts the items each iterator request delivered), every iterator is also observed after n/3 steps and after exhaustion; one request in ten is a bulk constructor `kmersb` / `kmersa` (packed bases; text in either case with other characters); every k-mer answer carries the raw storage word. Non-trivial = the answer contains at least one k-mer.",
         "trusted_base": [],
@@ -478,7 +478,7 @@ PROPS = {
         "nontrivial": lambda toks, impl: impl != "panic", "tags": _c12_tags,
         "harness_key": "C12",
         "rule": "requests `<ktype> rc <container> <seq>`: rc, rc∘rc and the k-mers of the reverse complement for DnaString, DnaStringSlice (both "
-                "orientations, inner offsets) and Lmer (1-6 words), lengths 0, 1, block boundaries and random; `exts <hex>` for extension "
+                "orientations, inner offsets, windows of views) and Lmer (1-6 words), lengths 0, 1, block boundaries and random; `exts <hex>` for extension "
                 "bytes (all 256 in the corpus). Verdict: rc = reversed complemented bases, rc∘rc = identity, i-th k-mer of rc = rc of the "
                 "(n-K-i)-th k-mer; for slices also the owned copy of the rc view and the rc of the owned copy (both = the reversed complemented bases); Exts: sides swapped, bases complemented. K-mer types from the 22-row table. The k-mer instance (min_rc, flip, palindrome) is in the C10 requests.",
         "trusted_base": [],
